@@ -15,7 +15,7 @@ FUNCTIONS = [
     "batchie.retrospective.create_plate_balanced_holdout_set_among_masked_plates / create_random_holdout",
 ]
 BOUNDS = {
-    "quick": "six hand-written screen families of 4-7 rows (<=3 samples, <=5 plates, duplicate conditions, single-agent rows, observed and unobserved plates); every integer parameter in its stated small range; hold-out fraction an arbitrary real in [0,1]; every value the random generator can return; plus two generated structures (9 rows on 5+1 plates and 10 rows on 6 plates, repeated plate sizes, rows of a plate not adjacent) under every operation",
+    "quick": "six hand-written screen families of 4-7 rows (<=3 samples, <=5 plates, duplicate conditions, single-agent rows, observed and unobserved plates); every integer parameter in its stated small range; hold-out fraction an arbitrary real in [0,1]; every value the random generator can return; plus two generated structures (9 rows on 5+1 plates and 10 rows on 6 plates, repeated plate sizes, rows of a plate not adjacent) under every operation; three operations on a screen with a NaN outcome on a plate not yet observed; six smoothers on a screen with a single unobserved plate",
     "thorough": "six hand-written families with up to 7 rows per operation plus 64 generated screen structures (up to 12 rows on up to 7 plates; operations whose draws are permutations of all rows on at most 6-7 rows of 24 structures) under every operation",
 }
 ASSUMPTIONS = [
